@@ -25,24 +25,33 @@ THEOREMS = 'Properties/C08.v'
 FINDING_KEY = 'C08-rect-duplicate-rows-zero-residual'
 CLAIM = dict(
     text='maxvol / maxvol_rect / _maxvol: Coq theorems, for every ordered field and all sizes, about the model '
-         'Model/Maxvol.v: one swap preserves A = B A[I], B[I] = Id and distinctness (maxvol_step_inv); maxvol returns '
+         'Model/Maxvol.v (maxvol_rect = the code with the masked arg-max np.argmax(np.where(S > 0, F, -1.)) of '
+         '/repo cac7db0): one swap preserves A = B A[I], B[I] = Id and distinctness (maxvol_step_inv); maxvol returns '
          'r distinct valid rows with A = B A[I], B[I] = Id and max|B| <= e whenever the loop was left by its test '
-         '(maxvol_spec); the rect augmentation preserves A = B A[I] and the tracked residuals F are the masked squared '
-         'row norms (rect_inv); maxvol_rect returns between r+dr_min and min(n, r+dr_max) distinct valid rows with '
-         'A = B A[I], B[I] = Id and every squared row norm <= e*e when it stopped before the upper limit (rect_spec, '
-         'for the repaired arg-max over unselected rows; the pinned arg-max agrees with it whenever the selected '
-         'residual is positive, and is refuted otherwise: rect_distinct_refuted); ValueError on wide/square input and '
-         'inconsistent dr (maxvol_rejects, rect_rejects); _maxvol dispatch incl. n <= r (dispatch_spec).',
+         '(maxvol_spec); the rect augmentation by any unselected row preserves A = B A[I] and the tracked residuals F '
+         'are the masked squared row norms (rect_inv); np.argmax is the first maximum (argmax_first) and the masked '
+         'line selects the first maximum of F among the unselected rows (rect_argmax_masked); maxvol_rect returns '
+         'between r+dr_min and min(n, r+dr_max) DISTINCT valid rows with A = B A[I], B[I] = Id and every squared row '
+         'norm <= e*e when it stopped before the upper limit, with no hypothesis on the residuals (rect_spec; e >= 1 '
+         'gives the hypothesis 1 <= e*e: one_le_sq); ValueError on wide/square input and inconsistent dr '
+         '(maxvol_rejects, rect_rejects_dr, rect_rejects_wide); _maxvol dispatch incl. n <= r never raises and returns '
+         'a valid selection (dispatch_trivial / _maxvol / _rect / _spec). The pinned arg-max np.argmax(F) is kept as '
+         'maxvol_rect_pinned: it agrees with the code whenever every selected residual is positive '
+         '(rect_pinned_agrees) and is refuted otherwise by a machine-checked witness over Qc: duplicate rows and '
+         'B[I] <> Id on A = [[1],[0]], dr_min = dr_max = 1 (rect_distinct_refuted).',
     note='The LU-based initialisation is an oracle with contract (A = B0 A[I0], B0[I0] = Id, I0 distinct), validated '
-         'numerically on every recorded call and exactly (over Qc) on the exact-tie stream; full column rank enters '
-         'only through that contract. The determinant reading of max|B| <= e is a remark, not proved. Theorems are '
+         'numerically on every recorded call and exactly (over Qc) on the exact streams; full column rank enters '
+         'only through that contract. The determinant reading of max|B| <= e ("no single row swap enlarges the volume '
+         'by more than e") is a remark, not proved (no determinant theory in the model). Theorems are '
          'about exact arithmetic; IEEE rounding is covered by the float-instance correspondence only.',
     technique='Coq proof (loop invariants over an abstract ordered field) + model/implementation correspondence '
-              '(Qc exact, PrimFloat with replayed LU) + numpy oracle of every clause')
+              '(Qc exact incl. an exactly-representable zero-residual / duplicate-row family, PrimFloat with replayed LU) '
+              '+ numpy oracle of every clause')
 TRUSTED = ['Coq 8.16.1 kernel + vm_compute (case evaluation, rect_distinct_refuted witness)',
            'hand-written model Model/Maxvol.v tied to maxvol.py / utils._maxvol by the correspondence streams',
            'oracle contract lu_contract for scipy lu + two solve_triangular (validated on every recorded call)',
-           'np.argmax = first maximum; B[I] = eye with repeated I: last write wins; norm(B,axis=1)**2 = sum of squares',
+           'np.argmax = first maximum; np.where(S > 0, F, -1.) elementwise; B[I] = eye with repeated I: last write wins; '
+           'norm(B,axis=1)**2 = sum of squares',
            'IEEE rounding not modelled in the theorems (float instance is executed only)']
 ASSUMPTIONS = ['carrier is an ordered field (record ordfield; instance proved for Qc)',
                'lu_contract A (lu_init A) for the matrix at hand (holds for full column rank; validated at run time)']
@@ -777,8 +786,9 @@ def correspondence(R, ctx):
         dist['accepted'] += 1
         dist['forced_zero_residual'] += int(fz)
         dist['stopped_by_test' if stopped else 'upper_limit'] += 1
-        dist['with_duplicate_rows'] += int(len(set(map(tuple, A))) < n - (sum(1 for row in A if not any(row)) - 1))
-        nz = sum(1 for row in A if not any(row))
+        nzrows = [tuple(row) for row in A if any(row)]
+        dist['with_duplicate_rows'] += int(len(set(nzrows)) < len(nzrows))
+        nz = n - len(nzrows)
         dist['zero_rows'][nz] = dist['zero_rows'].get(nz, 0) + 1
         key = f'{dr_min},{dr_max}'
         dist['dr'][key] = dist['dr'].get(key, 0) + 1
